@@ -146,6 +146,8 @@ class Normal(BaseProposal):
             self._std = cov**0.5
         else:
             self._cov = cov
+        # the cached distribution has to follow
+        self._update_proposal()
 
     @property
     def std(self):
@@ -169,6 +171,8 @@ class Normal(BaseProposal):
         std = self._ensurearray(std)
         self._isdiagonal = True
         self._std = std
+        # the cached distribution has to follow
+        self._update_proposal()
 
     @property
     def state(self):
